@@ -197,6 +197,9 @@ def iter_source(I, st, it):
             sv = st.set_views.get(it.term.get_id())
             if sv is not None:
                 return ("setview", (it, sv))
+            ln = z3.simplify(st.resolve_select(I.list_len(st, it)))
+            if z3.is_int_value(ln) and ln.as_long() == 0:
+                return ("empty", None)
             return ("list", it)
     raise Unsupported("iteration over %s" % ty_str(it.ty))
 
